@@ -125,29 +125,22 @@ pub struct ClientCfg {
 }
 
 pub fn build_client(cfg: &ClientCfg, sink: RecSink, handler: Option<HandlerLog>) -> StatsdClient {
+    // a client without any option is built through the short constructor
+    if cfg.default_tags.is_empty() && cfg.default_container.is_none() && cfg.earlier_containers.is_empty() && handler.is_none() {
+        return StatsdClient::from_sink(&cfg.prefix_raw, sink);
+    }
     let mut b = StatsdClient::builder(&cfg.prefix_raw, sink);
-    for c in &cfg.earlier_containers {
-        b = b.with_container_id(c.as_str());
-    }
-    // interleave: tags and container id in configuration order (container position must not matter)
+    // the order of the builder calls must not matter (except among tags, whose order is their configured order):
+    // the positions of the handler and of the container id among the tag calls are derived from the configuration
+    let n = cfg.default_tags.len();
+    let salt = crate::rng::hash_str(&cfg.prefix_raw) as usize ^ n.wrapping_mul(31) ^ cfg.default_container.as_deref().map(|c| c.len()).unwrap_or(7);
+    let handler_pos = salt % (n + 1);
+    let container_pos = (salt / 7) % (n + 1);
+    let mut handler = handler;
     let mut put_container = cfg.default_container.clone();
-    let half = cfg.default_tags.len() / 2;
-    for (i, (k, v)) in cfg.default_tags.iter().enumerate() {
-        if i == half {
-            if let Some(c) = put_container.take() {
-                b = b.with_container_id(c);
-            }
-        }
-        b = match k {
-            Some(k) => b.with_tag(k.as_str(), v.as_str()),
-            None => b.with_tag_value(v.as_str()),
-        };
-    }
-    if let Some(c) = put_container.take() {
-        b = b.with_container_id(c);
-    }
-    if let Some(h) = handler {
-        b = b.with_error_handler(move |e: MetricError| {
+    let mut earlier = cfg.earlier_containers.clone();
+    let install_handler = |b: cadence::StatsdClientBuilder, h: HandlerLog| -> cadence::StatsdClientBuilder {
+        b.with_error_handler(move |e: MetricError| {
             let info = err_info(&e);
             h.log.lock().unwrap().push(info);
             // optional extra action installed by a driver (e.g. the handler itself sending a metric)
@@ -155,7 +148,30 @@ pub fn build_client(cfg: &ClientCfg, sink: RecSink, handler: Option<HandlerLog>)
             if let Some(f) = f {
                 f();
             }
-        });
+        })
+    };
+    for i in 0..=n {
+        if i == handler_pos {
+            if let Some(h) = handler.take() {
+                b = install_handler(b, h);
+            }
+        }
+        if i == container_pos {
+            // repeated with_container_id on the builder: the last one wins
+            for c in earlier.drain(..) {
+                b = b.with_container_id(c);
+            }
+            if let Some(c) = put_container.take() {
+                b = b.with_container_id(c);
+            }
+        }
+        if i < n {
+            let (k, v) = &cfg.default_tags[i];
+            b = match k {
+                Some(k) => b.with_tag(k.as_str(), v.as_str()),
+                None => b.with_tag_value(v.as_str()),
+            };
+        }
     }
     b.build()
 }
